@@ -709,6 +709,11 @@ std::string plan_to_text(const Plan& p) {
   o += "engine " + p.engine + "\nbatch " + p.batch + "\n";
   snprintf(b, sizeof b, "seed %llu\nrunseed %llu\nlocale %d\n", (unsigned long long)p.seed, (unsigned long long)p.runseed, p.locale); o += b;
   snprintf(b, sizeof b, "sched policy=%d param=%d seed=%llu\n", p.sched.policy, p.sched.param, (unsigned long long)p.sched.seed); o += b;
+  if (!p.sched.task_events_hint.empty()) {
+    o += "hint";
+    for (auto e : p.sched.task_events_hint) { snprintf(b, sizeof b, " %llu", (unsigned long long)e); o += b; }
+    o += "\n";
+  }
   if (!p.setup.empty()) {
     o += "setup\n";
     for (auto& op : p.setup) o += op_to_text(op) + "\n";
@@ -838,6 +843,11 @@ bool plan_from_text(const std::string& txt, Plan& p, std::string* err) {
         if (kv.first == "param") p.sched.param = atoi(kv.second.c_str());
         if (kv.first == "seed") p.sched.seed = strtoull(kv.second.c_str(), nullptr, 10);
       }
+    }
+    else if (line.rfind("hint", 0) == 0) {
+      const char* q = line.c_str() + 4;
+      char* e;
+      for (;;) { unsigned long long v = strtoull(q, &e, 10); if (e == q) break; p.sched.task_events_hint.push_back(v); q = e; }
     }
     else if (line == "setup") section = -1;
     else if (line.rfind("task ", 0) == 0) { section = atoi(line.c_str() + 5); while ((int)p.tasks.size() <= section) p.tasks.push_back(TaskPlan()); }
